@@ -15,6 +15,7 @@ structure Req where
   reads : List Path
   exts : List Path
   before : FSys
+  links : Links := []       -- symbolic links to directories on the input side (absent: none)
 
 def decodeReq (req : Json) : Except String Req := do
   let cwd ← req.getObjValAs? String "cwd"
@@ -29,9 +30,15 @@ def decodeReq (req : Json) : Except String Req := do
   let reads ← getStrs req "reads"
   let exts ← getStrs req "exts"
   let before ← getStrs req "before"
+  let links ← match req.getObjVal? "links" with
+    | .ok (Json.arr a) => a.toList.mapM (fun j => do
+        let l ← j.getArrVal? 0 >>= (·.getStr?)
+        let t ← j.getArrVal? 1 >>= (·.getStr?)
+        pure (absParts l, absParts t))
+    | _ => pure []
   pure { run := { cwd := absParts cwd, gens, targets, clean, support := if supportLib then support else fun _ => [], defs },
          reportPath := report.map Path.ofString, reads := reads.map Path.ofString, exts := exts.map Path.ofString,
-         before := before.map absParts }
+         before := before.map absParts, links }
 
 def absJ (p : List String) : Json := Json.str ("/" ++ "/".intercalate p)
 
@@ -182,17 +189,42 @@ def spec (req : Json) : Except String Json := do
         if !(under (resolve cwd c.out.source) (res p)) then fails := fails ++ [("report-wrong-generator", p)]
   for (a, _) in active do
     if !(gens.any (fun g => g.key == a.key)) then fails := fails ++ [("report-generator-missing", a.key)]
-  -- 5. inputs: the root, every transitively imported file, every @extern file — each once
-  let gotIdl := repIdl.map res
+  -- 5. inputs: the root, every transitively imported file, every @extern file — each once. An entry counts for the file
+  --    it *denotes* (the walk of the operating system through the declared symbolic links; without links: `resolve`,
+  --    `physResolve_nil`); `expectIdl` / `expectExt` name the files read by their link-free paths
+  let den (s : String) := physResolve q.links cwd (Path.ofString s)
+  let gotIdl := repIdl.map den
   let wantIdl := expIdl.map absParts
   if !(sameMultiset gotIdl wantIdl) then
     fails := fails ++ [(if (dedupL gotIdl).length != gotIdl.length then "report-idl-duplicate" else "report-idl", s!"{repIdl}")]
-  let gotExt := repExt.map res
+  let gotExt := repExt.map den
   let wantExt := expExt.map absParts
   if !(sameMultiset gotExt wantExt) then
     fails := fails ++ [(if gotExt.length < wantExt.length then "report-extern-missing" else "report-extern", s!"{repExt}")]
+  -- 6. the report against the files on disk afterwards, per generator: every file listed exists; with `clean`, a
+  --    generator that ran lists *all* files below its directories (`genStep_clean_disk_eq_writes`) — as long as no other
+  --    active generator's directory is nested with them (Dom outDirsDisjoint)
+  let after : FSys := addFiles (q.before.filter (fun f => !(deleted.map absParts).contains f)) (created.map absParts)
+  let allDirs := active.flatMap (fun (a, c) => [(a.key, resolve cwd c.out.header), (a.key, resolve cwd c.out.source)])
+  for g in gens do
+    match active.find? (fun (a, _) => a.key == g.key) with
+    | none => pure ()
+    | some (_, c) =>
+      let listed := (g.header ++ g.source).map res
+      for p in listed do
+        if !after.contains p then fails := fails ++ [("report-lists-missing-file", g.key ++ " " ++ "/" ++ "/".intercalate p)]
+      let mine := [resolve cwd c.out.header, resolve cwd c.out.source]
+      let nested := allDirs.any (fun (k, d) => k != g.key && mine.any (fun m => m == d || under m d || under d m))
+      if q.run.clean && !nested then
+        let unlisted := after.filter (fun f => mine.any (fun m => under m f) && !listed.contains f)
+        match unlisted with
+        | [] => pure ()
+        | f :: _ => fails := fails ++ [("on-disk-not-reported",
+            s!"{g.key}: {unlisted.length} file(s) below its directories are not listed ({listed.length} are), first /{"/".intercalate f}")]
   pure (Json.mkObj [("holds", fails.isEmpty),
-    ("fails", Json.arr (fails.map (fun (k, d) => Json.mkObj [("key", k), ("detail", d)])).toArray)])
+    ("fails", Json.arr (fails.map (fun (k, d) => Json.mkObj [("key", k), ("detail", d)])).toArray),
+    -- the file every input entry denotes by the model's walk (compared with `os.path.realpath` in the worker)
+    ("denIdl", Json.arr (gotIdl.map absJ).toArray), ("denExt", Json.arr (gotExt.map absJ).toArray)])
 
 def handle (op : String) (req : Json) : Except String Json :=
   match op with
